@@ -1,4 +1,451 @@
-import ApiFu.C16.Model
-import ApiFu.C16.Spec
+/-
+  C16 — property theorems.
+
+  Standing hypotheses:
+    * `StrictTotal ltId` — ids are totally ordered by `strings.Compare` (ids unique ⇒ the (time, id)
+      cursors of a data set are distinct; `Sorted` is strict and implies it);
+    * `S.Perm D`, `Sorted (ltC ltId) S` — `S` is the data set `D` in (time, id) order;
+    * `∀ c ∈ D, Int64Range c.nano` — `TimeBasedCursor.Nano` is a Go `int64` (so the defaults
+      `time.Time{}` and `distantFuture` for absent bounds do not cut anything off);
+    * `LawfulSort`, `LawfulCodec`, `Accepted` — as in C09;
+    * the getter contract: `Honours D g` (what the property grants: min, max and limit are honoured,
+      ties at the cut are the getter's choice) or `HonoursById ltId D g` (ties cut in id order).
+  `all_filters_hold` and `range_queries_cover` need only `Honours` (indeed less); result = TimeRef
+  and walk exactness need `HonoursById` — and `weak_contract_fails` proves that they are false under
+  `Honours` alone (finding F-16b).
+-/
+import ApiFu.C16.Adapter
+
 namespace ApiFu.C16
+
+open ApiFu.C09
+
+variable {ι : Type}
+
+theorem mem_lastTrunc {α : Type} {X : List α} {l : Option Int} {e : α} (h : e ∈ lastTrunc X l) : e ∈ X := by
+  cases l with
+  | none => exact h
+  | some n => exact List.mem_of_mem_drop h
+
+theorem mem_firstTrunc {α : Type} {X : List α} {f : Option Int} {e : α} (h : e ∈ firstTrunc X f) : e ∈ X := by
+  cases f with
+  | none => exact h
+  | some n => exact List.mem_of_mem_take h
+
+/-- **all_filters_hold** — whatever the getter does at ties (it only has to return edges of the data
+    set within the `[min, max]` it is given), every edge of every answered request satisfies every
+    filter the client supplied: it lies strictly between the `after` and `before` cursors and its
+    time lies in `[atOrAfterTime, beforeTime)`. (False before the F-16a fix: the exact-timestamp
+    query for a cursor outside the window returned edges that were filtered by cursor only.) -/
+theorem all_filters_hold {ltId : ι → ι → Bool} {sort : List (TCursor ι) → List (TCursor ι)}
+    (hs : LawfulSort (ltC ltId) sort) {D : List (TCursor ι)} (hD : ∀ c, c ∈ D → Int64Range c.nano)
+    {g : Int → Int → Int → List (TCursor ι)} (hg : Honours D g)
+    {dec : String → Option (TCursor ι)} {a : TArgs} {av bv : Option (TCursor ι)}
+    (hacc : Accepted dec a.conn av bv) (tc : Option Int) (sel : Sel) :
+    ∃ c, resolveTime ltId sort dec g tc a sel = .ok c ∧
+      ∀ e, e ∈ c.edges → e ∈ D ∧ inTimeWindow a.atOrAfterTime a.beforeTime e = true ∧
+        betweenCursors ltId av bv e = true := by
+  obtain ⟨c, hres, hedges, _⟩ := resolveDecoded_shape (ltC ltId) sort
+    (timeApp g a.atOrAfterTime a.beforeTime tc) .window a.conn sel av bv hacc.args
+  refine ⟨c, by unfold resolveTime; rw [hacc.resolve_eq, hres], ?_⟩
+  intro e he
+  rw [hedges] at he
+  have h1 := mem_firstTrunc (mem_lastTrunc he)
+  have h2 := (hs _).1.mem_iff.mp h1
+  obtain ⟨h3, h4⟩ := List.mem_filter.mp h2
+  have h5 : e ∈ adapter g a.atOrAfterTime a.beforeTime av bv (limitOf a.conn) := h3
+  obtain ⟨h6, h7, h8⟩ := adapter_sub hg.sub _ _ _ _ _ e h5
+  exact ⟨h6, (inTimeWindow_iff _ _ e (hD e h6)).mpr ⟨h7, h8⟩, by rw [betweenCursors_eq_inRange]; exact h4⟩
+
+/-- **range_queries_within_window** — every issued range query lies inside the requested time
+    window (the F-16a fix), so nothing outside the window can reach the connection. -/
+theorem range_queries_within_window (a b : Option (TCursor ι)) (t1 t2 : Option Int) (lim : Int)
+    (q : Query) (hq : q ∈ timeBasedRangeQueries a b t1 t2 lim) (t : Int) (h1 : q.minTime ≤ t) (h2 : t ≤ q.maxTime) :
+    lo t1 ≤ t ∧ t < hi t2 := by
+  rw [queries_eq] at hq
+  simp only [List.mem_append, List.mem_singleton] at hq
+  rcases hq with (hq | hq) | hq
+  · obtain ⟨ca, _, hw, rfl⟩ := mem_exactA.mp hq
+    have := (inWin_iff t1 t2 ca.nano).mp hw
+    simp only at h1 h2
+    omega
+  · obtain ⟨cb, _, hw, _, rfl⟩ := mem_exactB.mp hq
+    have := (inWin_iff t1 t2 cb.nano).mp hw
+    simp only at h1 h2
+    omega
+  · subst hq
+    have h3 := (midMin_le_iff a t1 t).mp h1
+    have h4 := (le_midMax_iff b t2 t).mp h2
+    exact ⟨h3.1, by omega⟩
+
+/-- **range_queries_cover** — the union of the issued `[min, max]` ranges contains every edge that
+    matches the client's filters (so in particular every edge of TimeRef's answer), whatever the
+    data: also when many edges share the cursor's exact timestamp — those are reached by the
+    exact-timestamp queries, which carry no limit. -/
+theorem range_queries_cover (ltId : ι → ι → Bool) (a b : Option (TCursor ι)) (t1 t2 : Option Int) (lim : Int)
+    (c : TCursor ι) (hc : Int64Range c.nano) (hw : inTimeWindow t1 t2 c = true)
+    (hb : betweenCursors ltId a b c = true) :
+    ∃ q, q ∈ timeBasedRangeQueries a b t1 t2 lim ∧ q.minTime ≤ c.nano ∧ c.nano ≤ q.maxTime ∧
+      (q.limit = 0 ∨ q.limit = lim) := by
+  obtain ⟨hw1, hw2⟩ := (inTimeWindow_iff t1 t2 c hc).mp hw
+  rw [betweenCursors_eq_inRange] at hb
+  obtain ⟨hra, hrb⟩ := (inRange_iff ltId a b c).mp hb
+  rw [queries_eq]
+  by_cases hA : ∃ ca, a = some ca ∧ ca.nano = c.nano
+  · obtain ⟨ca, h1, h2⟩ := hA
+    refine ⟨{ minTime := ca.nano, maxTime := ca.nano, limit := 0 }, ?_, by simp; omega, by simp; omega, Or.inl rfl⟩
+    simp only [List.mem_append]
+    exact Or.inl (Or.inl (mem_exactA.mpr ⟨ca, h1, (inWin_iff t1 t2 ca.nano).mpr (by omega), rfl⟩))
+  · by_cases hB : ∃ cb, b = some cb ∧ cb.nano = c.nano
+    · obtain ⟨cb, h1, h2⟩ := hB
+      refine ⟨{ minTime := cb.nano, maxTime := cb.nano, limit := 0 }, ?_, by simp; omega, by simp; omega, Or.inl rfl⟩
+      simp only [List.mem_append]
+      refine Or.inl (Or.inr (mem_exactB.mpr ⟨cb, h1, (inWin_iff t1 t2 cb.nano).mpr (by omega), ?_, rfl⟩))
+      cases ha : a with
+      | none => rfl
+      | some ca =>
+        simp only [sameAsAfter, decide_eq_false_iff_not]
+        intro heq
+        exact hA ⟨ca, ha, by omega⟩
+    · refine ⟨{ minTime := midMin a t1, maxTime := midMax b t2, limit := lim }, by simp, ?_, ?_, Or.inr rfl⟩
+      · apply (midMin_le_iff a t1 c.nano).mpr
+        refine ⟨hw1, ?_⟩
+        intro ca ha
+        have := (ltC_iff ltId ca c).mp (hra ca ha)
+        have hne : ca.nano ≠ c.nano := fun h => hA ⟨ca, ha, h⟩
+        omega
+      · apply (le_midMax_iff b t2 c.nano).mpr
+        refine ⟨by omega, ?_⟩
+        intro cb hb'
+        have := (ltC_iff ltId c cb).mp (hrb cb hb')
+        have hne : cb.nano ≠ c.nano := fun h => hB ⟨cb, hb', h⟩
+        omega
+
+section
+variable [DecidableEq ι]
+
+/-- The C09 reading of a time-based connection: it serves (in window mode) the connection whose
+    edge set is the data set restricted to the time window. -/
+theorem serves_time_window {ltId : ι → ι → Bool} {D : List (TCursor ι)}
+    (hD : ∀ c, c ∈ D → Int64Range c.nano) {g : Int → Int → Int → List (TCursor ι)}
+    (hg : HonoursById ltId D g) (t1 t2 : Option Int) (tc : Option Int) :
+    Serves (ltC ltId) (D.filter (inTimeWindow t1 t2)) (timeApp g t1 t2 tc) .window :=
+  adapter_honours_window hD hg t1 t2
+
+/-- **range_queries_sufficient** — if the getter cuts ties in id order, the range queries are
+    sufficient: every accepted request is answered with exactly `TimeRef` — the edges strictly
+    between the cursors, inside the time window, in (time, id) order, truncated by first/last —
+    however many edges share the cursor's timestamp, and wherever the cursors lie relative to the
+    window. -/
+theorem range_queries_sufficient {ltId : ι → ι → Bool} (hId : StrictTotal ltId)
+    {sort : List (TCursor ι) → List (TCursor ι)} (hs : LawfulSort (ltC ltId) sort)
+    {D S : List (TCursor ι)} (hperm : S.Perm D) (hsorted : Sorted (ltC ltId) S)
+    (hD : ∀ c, c ∈ D → Int64Range c.nano) {g : Int → Int → Int → List (TCursor ι)}
+    (hg : HonoursById ltId D g)
+    {dec : String → Option (TCursor ι)} {a : TArgs} {av bv : Option (TCursor ι)}
+    (hacc : Accepted dec a.conn av bv) (tc : Option Int) (sel : Sel) :
+    ∃ c, resolveTime ltId sort dec g tc a sel = .ok c ∧
+      c.edges = timeRef ltId S av bv a.atOrAfterTime a.beforeTime
+        (a.conn.first.map Int.toNat) (a.conn.last.map Int.toNat) := by
+  have hC := strictTotal_ltC hId
+  have hperm' : (S.filter (inTimeWindow a.atOrAfterTime a.beforeTime)).Perm
+      (D.filter (inTimeWindow a.atOrAfterTime a.beforeTime)) := List.Perm.filter _ hperm
+  have hsorted' : Sorted (ltC ltId) (S.filter (inTimeWindow a.atOrAfterTime a.beforeTime)) :=
+    List.Pairwise.filter _ hsorted
+  obtain ⟨c, hres, hedges, _⟩ := conn_closed_form hC hs hperm' hsorted'
+    (serves_time_window hD hg a.atOrAfterTime a.beforeTime tc) a.conn sel av bv hacc.args
+  refine ⟨c, by unfold resolveTime; rw [hacc.resolve_eq, hres], ?_⟩
+  rw [hedges]
+  unfold timeRef matching
+  have hm : S.filter (fun c => inTimeWindow a.atOrAfterTime a.beforeTime c && betweenCursors ltId av bv c) =
+      (S.filter (inTimeWindow a.atOrAfterTime a.beforeTime)).filter (inRange (ltC ltId) av bv) := by
+    rw [List.filter_filter]
+    apply List.filter_congr
+    intro x _
+    rw [betweenCursors_eq_inRange, Bool.and_comm]
+  rw [hm]
+  cases a.conn.first <;> cases a.conn.last <;> rfl
+
+/-- **time_walk_exact** — if the getter cuts ties in id order, then for every time window and every
+    page size `n ≥ 1`, walking forward by `endCursor`/`after` (or backward by `startCursor`/`before`)
+    terminates, never meets an error, and visits exactly the edges inside the time window, in
+    (time, id) order, each exactly once, at most `n` per page. -/
+theorem time_walk_exact {ltId : ι → ι → Bool} (hId : StrictTotal ltId)
+    {sort : List (TCursor ι) → List (TCursor ι)} (hs : LawfulSort (ltC ltId) sort)
+    {D S : List (TCursor ι)} (hperm : S.Perm D) (hsorted : Sorted (ltC ltId) S)
+    (hD : ∀ c, c ∈ D → Int64Range c.nano) {g : Int → Int → Int → List (TCursor ι)}
+    (hg : HonoursById ltId D g) (t1 t2 : Option Int) (tc : Option Int)
+    {dec : String → Option (TCursor ι)} {enc : TCursor ι → String} (hcodec : LawfulCodec dec enc)
+    (n : Nat) (hn : 1 ≤ n) :
+    (∃ pages, walkForward (ltC ltId) sort dec enc (timeApp g t1 t2 tc) .window n
+        ((D.filter (inTimeWindow t1 t2)).length + 1) none = some pages ∧
+      pages.flatten = S.filter (inTimeWindow t1 t2) ∧ ∀ p, p ∈ pages → p.length ≤ n) ∧
+    (∃ pages, walkBackward (ltC ltId) sort dec enc (timeApp g t1 t2 tc) .window n
+        ((D.filter (inTimeWindow t1 t2)).length + 1) none = some pages ∧
+      pages.flatten = S.filter (inTimeWindow t1 t2) ∧ ∀ p, p ∈ pages → p.length ≤ n) ∧
+    (S.filter (inTimeWindow t1 t2)).Nodup :=
+  walk_exact (strictTotal_ltC hId) hs (List.Perm.filter _ hperm) (List.Pairwise.filter _ hsorted)
+    (serves_time_window hD hg t1 t2 tc) hcodec n hn
+
+end
+
+/-! ### Non-vacuity: for every data set a getter honouring the id tie-break contract exists -/
+
+/-- The getter one would write over an index on (time, id): filter the range, cut at the limit. -/
+def idealGetter (S : List (TCursor ι)) (mn mx lim : Int) : List (TCursor ι) :=
+  if lim = 0 then S.filter (inQ mn mx)
+  else if 0 < lim then (S.filter (inQ mn mx)).take lim.toNat
+  else (S.filter (inQ mn mx)).drop ((S.filter (inQ mn mx)).length - (-lim).toNat)
+
+theorem idealGetter_mem {S : List (TCursor ι)} {mn mx lim : Int} {c : TCursor ι}
+    (h : c ∈ idealGetter S mn mx lim) : c ∈ S.filter (inQ mn mx) := by
+  unfold idealGetter at h
+  split at h
+  · exact h
+  · split at h
+    · exact List.mem_of_mem_take h
+    · exact List.mem_of_mem_drop h
+
+/-- **ideal_getter_honours** — `HonoursById` is satisfiable for every data set with distinct
+    cursors (so `range_queries_sufficient` and `time_walk_exact` are not vacuous). -/
+theorem ideal_getter_honours {ltId : ι → ι → Bool} (hId : StrictTotal ltId) {D S : List (TCursor ι)}
+    (hperm : S.Perm D) (hsorted : Sorted (ltC ltId) S) : HonoursById ltId D (idealGetter S) := by
+  have hC := strictTotal_ltC hId
+  have hQs : ∀ mn mx, Sorted (ltC ltId) (S.filter (inQ mn mx)) := fun mn mx => List.Pairwise.filter _ hsorted
+  have hlen : ∀ mn mx, (S.filter (inQ mn mx)).length = (D.filter (inQ mn mx)).length :=
+    fun mn mx => (List.Perm.filter _ hperm).length_eq
+  -- an element of the range that is not in the kept prefix lies in the dropped suffix, and is later
+  have hsplit_pos : ∀ mn mx (k : Nat) c d, c ∈ (S.filter (inQ mn mx)).take k → d ∈ S.filter (inQ mn mx) →
+      d ∉ (S.filter (inQ mn mx)).take k → ltC ltId c d = true := by
+    intro mn mx k c d hc hd hnd
+    have hpw : Sorted (ltC ltId) ((S.filter (inQ mn mx)).take k ++ (S.filter (inQ mn mx)).drop k) := by
+      rw [List.take_append_drop]; exact hQs mn mx
+    have hd' : d ∈ (S.filter (inQ mn mx)).drop k := by
+      have := (List.take_append_drop k (S.filter (inQ mn mx))) ▸ hd
+      rcases List.mem_append.mp this with h | h
+      · exact absurd h hnd
+      · exact h
+    exact (List.pairwise_append.mp hpw).2.2 c hc d hd'
+  have hsplit_neg : ∀ mn mx (k : Nat) c d, c ∈ (S.filter (inQ mn mx)).drop k → d ∈ S.filter (inQ mn mx) →
+      d ∉ (S.filter (inQ mn mx)).drop k → ltC ltId d c = true := by
+    intro mn mx k c d hc hd hnd
+    have hpw : Sorted (ltC ltId) ((S.filter (inQ mn mx)).take k ++ (S.filter (inQ mn mx)).drop k) := by
+      rw [List.take_append_drop]; exact hQs mn mx
+    have hd' : d ∈ (S.filter (inQ mn mx)).take k := by
+      have := (List.take_append_drop k (S.filter (inQ mn mx))) ▸ hd
+      rcases List.mem_append.mp this with h | h
+      · exact h
+      · exact absurd h hnd
+    exact (List.pairwise_append.mp hpw).2.2 d hd' c hc
+  have hposG : ∀ mn mx lim, 0 < lim → idealGetter S mn mx lim = (S.filter (inQ mn mx)).take lim.toNat := by
+    intro mn mx lim hl
+    have h0 : ¬ lim = 0 := by omega
+    simp [idealGetter, h0, hl]
+  have hnegG : ∀ mn mx lim, lim < 0 → idealGetter S mn mx lim =
+      (S.filter (inQ mn mx)).drop ((S.filter (inQ mn mx)).length - (-lim).toNat) := by
+    intro mn mx lim hl
+    have h0 : ¬ lim = 0 := by omega
+    have h1 : ¬ 0 < lim := by omega
+    simp [idealGetter, h0, h1]
+  have hmemD : ∀ mn mx d, d ∈ D → inQ mn mx d = true → d ∈ S.filter (inQ mn mx) :=
+    fun mn mx d hd hq => List.mem_filter.mpr ⟨hperm.mem_iff.mpr hd, hq⟩
+  exact {
+    sub := fun mn mx lim c hc => by
+      have := List.mem_filter.mp (idealGetter_mem hc)
+      exact ⟨hperm.mem_iff.mp this.1, this.2⟩
+    nodup := fun mn mx lim => by
+      have hn : (S.filter (inQ mn mx)).Nodup := Sorted.nodup hC (hQs mn mx)
+      unfold idealGetter
+      split
+      · exact hn
+      · split
+        · exact List.Nodup.sublist (List.take_sublist _ _) hn
+        · exact List.Nodup.sublist (List.drop_sublist _ _) hn
+    all := fun mn mx c hc hq => by
+      simp only [idealGetter, if_true]
+      exact hmemD mn mx c hc hq
+    len_pos := fun mn mx lim hl => by
+      rw [hposG mn mx lim hl, List.length_take, hlen]
+    earliest := fun mn mx lim hl c hc d hd hq hnd => by
+      rw [hposG mn mx lim hl] at hc hnd
+      have := (ltC_iff ltId c d).mp (hsplit_pos mn mx _ c d hc (hmemD mn mx d hd hq) hnd)
+      omega
+    len_neg := fun mn mx lim hl => by
+      rw [hnegG mn mx lim hl, List.length_drop, hlen]
+      omega
+    latest := fun mn mx lim hl c hc d hd hq hnd => by
+      rw [hnegG mn mx lim hl] at hc hnd
+      have := (ltC_iff ltId d c).mp (hsplit_neg mn mx _ c d hc (hmemD mn mx d hd hq) hnd)
+      omega
+    tie_pos := fun mn mx lim hl c hc d hd hq hnd heq => by
+      rw [hposG mn mx lim hl] at hc hnd
+      rcases (ltC_iff ltId c d).mp (hsplit_pos mn mx _ c d hc (hmemD mn mx d hd hq) hnd) with h | h
+      · omega
+      · exact h.2
+    tie_neg := fun mn mx lim hl c hc d hd hq hnd heq => by
+      rw [hnegG mn mx lim hl] at hc hnd
+      rcases (ltC_iff ltId d c).mp (hsplit_neg mn mx _ c d hc (hmemD mn mx d hd hq) hnd) with h | h
+      · omega
+      · exact h.2 }
+
+/-! ### F-16b: under the contract the property grants, the result can be wrong -/
+
+section witness
+
+/-- ids 0, 1, 2 (think a, b, c) ordered as numbers. -/
+def ltNat (a b : Nat) : Bool := decide (a < b)
+
+theorem strictTotal_ltNat : StrictTotal ltNat where
+  irrefl := fun a => by simp [ltNat]
+  trans := fun {a b c} h1 h2 => by simp only [ltNat, decide_eq_true_eq] at *; omega
+  total := fun a b => by simp only [ltNat, decide_eq_true_eq]; omega
+
+/-- Three edges stamped with the same instant. -/
+def D3 : List (TCursor Nat) := [⟨1, 0⟩, ⟨1, 1⟩, ⟨1, 2⟩]
+
+/-- The same three edges, latest id first — how this getter orders equal timestamps. -/
+def D3rev : List (TCursor Nat) := [⟨1, 2⟩, ⟨1, 1⟩, ⟨1, 0⟩]
+
+/-- A getter over `D3` that honours min, max and limit, and returns equal timestamps in reverse id
+    order. -/
+def gRev (mn mx lim : Int) : List (TCursor Nat) :=
+  if mn ≤ 1 ∧ 1 ≤ mx then
+    (if lim = 0 then D3rev
+     else if 0 < lim then D3rev.take lim.toNat
+     else D3rev.drop (3 - (-lim).toNat))
+  else []
+
+theorem gRev_mem {mn mx lim : Int} {c : TCursor Nat} (h : c ∈ gRev mn mx lim) :
+    (mn ≤ 1 ∧ 1 ≤ mx) ∧ c ∈ D3rev := by
+  unfold gRev at h
+  by_cases hr : mn ≤ 1 ∧ 1 ≤ mx
+  · rw [if_pos hr] at h
+    refine ⟨hr, ?_⟩
+    split at h
+    · exact h
+    · split at h
+      · exact List.mem_of_mem_take h
+      · exact List.mem_of_mem_drop h
+  · rw [if_neg hr] at h; cases h
+
+theorem D3rev_nano {c : TCursor Nat} (h : c ∈ D3rev) : c.nano = 1 ∧ c ∈ D3 := by
+  simp only [D3rev, List.mem_cons, List.not_mem_nil, or_false] at h
+  rcases h with rfl | rfl | rfl <;> simp [D3]
+
+theorem D3_filter_inQ (mn mx : Int) :
+    D3.filter (inQ mn mx) = if mn ≤ 1 ∧ 1 ≤ mx then D3 else [] := by
+  by_cases hr : mn ≤ 1 ∧ 1 ≤ mx
+  · rw [if_pos hr]
+    exact List.filter_eq_self.mpr (fun c hc => by
+      simp only [D3, List.mem_cons, List.not_mem_nil, or_false] at hc
+      rcases hc with rfl | rfl | rfl <;> simp [inQ, hr.1, hr.2])
+  · rw [if_neg hr]
+    exact List.filter_eq_nil_iff.mpr (fun c hc => by
+      simp only [D3, List.mem_cons, List.not_mem_nil, or_false] at hc
+      rcases hc with rfl | rfl | rfl <;> simp [inQ] <;> omega)
+
+/-- `gRev` honours the contract the property grants. -/
+theorem gRev_honours : Honours D3 gRev where
+  sub := fun mn mx lim c hc => by
+    obtain ⟨hr, hm⟩ := gRev_mem hc
+    obtain ⟨h1, h2⟩ := D3rev_nano hm
+    exact ⟨h2, by simp [inQ, h1, hr.1, hr.2]⟩
+  nodup := fun mn mx lim => by
+    unfold gRev
+    have hn : D3rev.Nodup := by decide
+    split
+    · split
+      · exact hn
+      · split
+        · exact List.Nodup.sublist (List.take_sublist _ _) hn
+        · exact List.Nodup.sublist (List.drop_sublist _ _) hn
+    · exact List.nodup_nil
+  all := fun mn mx c hc hq => by
+    have hr : mn ≤ 1 ∧ 1 ≤ mx := by
+      simp only [D3, List.mem_cons, List.not_mem_nil, or_false] at hc
+      rcases hc with rfl | rfl | rfl <;> simpa [inQ] using hq
+    simp only [gRev, hr, and_self, if_true]
+    simp only [D3, List.mem_cons, List.not_mem_nil, or_false] at hc
+    rcases hc with rfl | rfl | rfl <;> simp [D3rev]
+  len_pos := fun mn mx lim hl => by
+    rw [D3_filter_inQ]
+    unfold gRev
+    by_cases hr : mn ≤ 1 ∧ 1 ≤ mx
+    · have h0 : ¬ lim = 0 := by omega
+      simp [hr, h0, hl, D3rev, D3]
+    · simp [hr]
+  earliest := fun mn mx lim _ c hc d hd _ _ => by
+    have h1 := (D3rev_nano (gRev_mem hc).2).1
+    have h2 : d.nano = 1 := by
+      simp only [D3, List.mem_cons, List.not_mem_nil, or_false] at hd
+      rcases hd with rfl | rfl | rfl <;> rfl
+    omega
+  len_neg := fun mn mx lim hl => by
+    rw [D3_filter_inQ]
+    unfold gRev
+    by_cases hr : mn ≤ 1 ∧ 1 ≤ mx
+    · have h0 : ¬ lim = 0 := by omega
+      have h1 : ¬ 0 < lim := by omega
+      simp only [hr, and_self, if_true, h0, if_false, h1, D3rev, D3, List.length_drop, List.length_cons,
+        List.length_nil]
+      omega
+    · simp [hr]
+  latest := fun mn mx lim _ c hc d hd _ _ => by
+    have h1 := (D3rev_nano (gRev_mem hc).2).1
+    have h2 : d.nano = 1 := by
+      simp only [D3, List.mem_cons, List.not_mem_nil, or_false] at hd
+      rcases hd with rfl | rfl | rfl <;> rfl
+    omega
+
+/-- `first: 1`, no cursors, no time bounds. -/
+def firstOne : TArgs :=
+  { conn := { first := some 1, last := none, after := none, before := none },
+    atOrAfterTime := none, beforeTime := none }
+
+/-- **weak_contract_fails** (negation witness, F-16b) — "provided only that the application's range
+    getter honours the minimum time, maximum time and limit it is given" is not enough: there is a
+    data set, a getter honouring exactly that contract and a request (`first: 1`, no cursors, no
+    time bounds) whose answer is not TimeRef's — the connection returns the edge with id 1 where
+    TimeRef selects the edge with id 0. The getter's reply for the middle query (limit 2) is
+    `[(1,2), (1,1)]`: the limit cut fell inside the group of equal timestamps. -/
+theorem weak_contract_fails :
+    ∃ (D S : List (TCursor Nat)) (g : Int → Int → Int → List (TCursor Nat)) (a : TArgs),
+      S.Perm D ∧ Sorted (ltC ltNat) S ∧ (∀ c, c ∈ D → Int64Range c.nano) ∧ Honours D g ∧
+      Accepted (fun _ => (none : Option (TCursor Nat))) a.conn none none ∧
+      ∃ c, resolveTime ltNat (isort (ltC ltNat)) (fun _ => none) g none a { pageInfo := true, totalCount := false } = .ok c ∧
+        c.edges = [⟨1, 1⟩] ∧
+        timeRef ltNat S none none a.atOrAfterTime a.beforeTime (a.conn.first.map Int.toNat) (a.conn.last.map Int.toNat)
+          = [⟨1, 0⟩] ∧
+        c.edges ≠ timeRef ltNat S none none a.atOrAfterTime a.beforeTime
+          (a.conn.first.map Int.toNat) (a.conn.last.map Int.toNat) := by
+  refine ⟨D3, D3, gRev, firstOne, List.Perm.refl _, by simp [Sorted, D3, ltC, ltNat], ?_, gRev_honours,
+    ⟨by decide, by decide, by decide⟩, ?_⟩
+  · intro c hc
+    simp only [D3, List.mem_cons, List.not_mem_nil, or_false] at hc
+    rcases hc with rfl | rfl | rfl <;> simp [Int64Range]
+  · exact ⟨{ edges := [⟨1, 1⟩],
+             pageInfo := some { hasPreviousPage := false, hasNextPage := true,
+                                startCursor := some ⟨1, 1⟩, endCursor := some ⟨1, 1⟩ },
+             totalCount := none, calls := [.window none none 2] },
+      by decide, by decide, by decide, by decide⟩
+
+/-- With the id tie-break the same request over the same data is answered correctly (and by
+    `range_queries_sufficient` so is every other request over every data set). -/
+example : ∃ c, resolveTime ltNat (isort (ltC ltNat)) (fun _ => none) (idealGetter D3) none firstOne
+      { pageInfo := true, totalCount := false } = .ok c ∧ c.edges = [⟨1, 0⟩] :=
+  ⟨{ edges := [⟨1, 0⟩],
+     pageInfo := some { hasPreviousPage := false, hasNextPage := true,
+                        startCursor := some ⟨1, 0⟩, endCursor := some ⟨1, 0⟩ },
+     totalCount := none, calls := [.window none none 2] }, by decide, by decide⟩
+
+/-- The range queries for `after = (5, _)`, `before = (9, _)`, window `[3, 20)`, `first: 2`. -/
+example : timeBasedRangeQueries (some (⟨5, 0⟩ : TCursor Nat)) (some ⟨9, 0⟩) (some 3) (some 20) 3 =
+    [⟨5, 5, 0⟩, ⟨9, 9, 0⟩, ⟨6, 8, 3⟩] := by decide
+
+/-- F-16a, fixed: a cursor outside the time window gets no exact-timestamp query. -/
+example : timeBasedRangeQueries (some (⟨1, 0⟩ : TCursor Nat)) none (some 5) none 11 =
+    [⟨5, distantFuture - 1, 11⟩] := by decide
+
+end witness
+
 end ApiFu.C16
